@@ -327,20 +327,28 @@ def _bare_dir(prefix="r"):
     return d
 
 
-def _disk_repo(h, ids, refs, head=None, prefix="r"):
+def _disk_repo(h, ids, refs, head=None, prefix="r", packed=False, keep_open=False):
+    """Bare disk repository holding exactly ``ids`` (loose files, or one pack written by dulwich)."""
     from dulwich.repo import Repo
 
     d = _bare_dir(prefix)
     r = Repo(d)
     try:
-        for oid in sorted(ids):
-            r.object_store.add_object(h.objs[oid])
+        if packed and ids:
+            r.object_store.add_objects([(h.objs[oid], None) for oid in sorted(ids)])
+        else:
+            for oid in sorted(ids):
+                r.object_store.add_object(h.objs[oid])
         for k, v in refs.items():
             r.refs[k] = v
         if head:
             r.refs.set_symbolic_ref(b"HEAD", head)
-    finally:
+    except BaseException:
         r.close()
+        raise
+    if keep_open:
+        return r
+    r.close()
     return d
 
 
